@@ -7,7 +7,7 @@ from sa.model import AnalysisError, Unknown, norm, unwrap, EnumMember
 from sa.query import Facts, call_name, find_calls, try_fold, calls_in
 from sa.exc import ExcAnalysis
 from sa.decide import Walker, completions, cmp_parts, accepted_set
-from .common import (dongle_classes, protocol_classes, device_touching, command_methods)
+from .common import (dongle_classes, protocol_classes, device_touching, command_methods, comm_flag)
 
 TECHNIQUE = ("exception-escape analysis over the resolved call graph, handler-discipline rules per "
              "command method (which handler catches link/timeout errors, what it sets and returns), "
@@ -69,7 +69,7 @@ def _sets_flag(run, h, fn, sc, V2):
     """Statements in handler h that set the comm-issue flag."""
     out = []
     for n in ast.walk(h):
-        if isinstance(n, ast.Assign) and any(isinstance(t, ast.Attribute) and t.attr == "_comm_issue" and isinstance(t.value, ast.Name) and t.value.id == "self"
+        if isinstance(n, ast.Assign) and any(isinstance(t, ast.Attribute) and t.attr == comm_flag(run) and isinstance(t.value, ast.Name) and t.value.id == "self"
                                              for t in n.targets):
             # the flag ensure_connection() reads is the one of the v5 protocol object: `self._comm_issue = True` sets it only in a method of that class
             # (the legacy protocol object delegates to an inner v5 object and must go through report_comm_issue())
@@ -199,7 +199,7 @@ def run(run):
              "v1 delegates to the v2 object's ensure_connection.")
     g = A.cfg(ens, V2)
     flag_conds = [n for n in g.nodes if n.kind == "cond" and isinstance(n.ast, ast.Attribute)
-                  and n.ast.attr == "_comm_issue"]
+                  and n.ast.attr == comm_flag(run)]
     run.require(len(flag_conds) == 1, "ensure_connection: the `_comm_issue` test vanished or multiplied")
     fc = flag_conds[0]
     fnode = [n for n in g.nodes if n.kind == "F" and n.cond is fc][0]
@@ -238,7 +238,7 @@ def run(run):
                       key="ensure_connection|disconnect-first", where=ens.loc(c),
                       message="ensure_connection re-initialises without first closing the connection")
     clears = [n for n in A.own_nodes(ens) if isinstance(n, ast.Assign)
-              and any(isinstance(t, ast.Attribute) and t.attr == "_comm_issue" for t in n.targets)]
+              and any(isinstance(t, ast.Attribute) and t.attr == comm_flag(run) for t in n.targets)]
     run.check("R2", len(clears) == 1 and isinstance(clears[0].value, ast.Constant) and clears[0].value.value is False,
               "exactly one flag clear in ensure_connection", key="ensure_connection|clear-count", where=ens.loc(),
               message=f"ensure_connection assigns the flag {len(clears)} time(s) / not to False")
@@ -385,7 +385,7 @@ def run(run):
     run.rule("R3", "_comm_issue is written True only inside HSM2DongleCommError handlers and in "
              "report_comm_issue; False only in __init__ and after re-initialisation in ensure_connection.")
     nwr = 0
-    for (rhs, wfn, tgt) in A._field_writes.get("_comm_issue", []):
+    for (rhs, wfn, tgt) in A._field_writes.get(comm_flag(run), []):
         nwr += 1
         val = rhs.value if isinstance(rhs, ast.Constant) else None
         if val is True:
@@ -412,7 +412,7 @@ def run(run):
                      f"{wfn.qualname} assigns a non-constant to the comm-issue flag")
     # report_comm_issue() is how the legacy protocol object (and helpers) raise the flag: it must do so, on the v2 object
     rci = P.method(V2, "report_comm_issue")
-    sets_ = [n for n in A.own_nodes(rci) if isinstance(n, ast.Assign) and any(norm(t) == "self._comm_issue" for t in n.targets)
+    sets_ = [n for n in A.own_nodes(rci) if isinstance(n, ast.Assign) and any(norm(t) == "self." + comm_flag(run) for t in n.targets)
              and isinstance(n.value, ast.Constant) and n.value.value is True]
     grc = A.cfg(rci, V2)
     run.check("R3", bool(sets_) and all(any(grc.dominates(x, grc.exit) for x in grc.nodes_of(n)) for n in sets_), "report_comm_issue() sets the flag on every path",
